@@ -123,14 +123,14 @@ for pid, extra in ADDED.items():
 # parts added in round 8 (DESIGN.md §10.6, round 8)
 ADDED8 = {
  "C01": "Round 8: folded-versus-computed differential over the sign of zero (6x5 operands x 6 operators x optional negation x 7 forms); fault sites in tail position.",
- "C02": "Round 8: select/unpack/multi-result programs under three growing-registry configurations (registry cut back before every program; below 3-6 padding frames) and F-unpackgrow (lists of 1-300 elements x representation x window, the unpack being the operation that reallocates).",
+ "C02": "Round 8: select/unpack/multi-result programs under three growing-registry configurations (registry cut back before every program; below 3-6 padding frames) and F-unpackgrow (lists of 1-300 elements x representation x window, the unpack being the operation that reallocates); many-results product (29 producers of n values at once x 16 sizes x 5 registry configurations, differential against the default registry).",
  "C03": "Round 8: F-nest also over loops written with labels and backward gotos (local behind the label / declared once in front of it): 40 688 programs.",
  "C04": "Round 8: F-opgrow (handlers whose k-th invocation reallocates the registry) under the growth configurations.",
  "C05": "Round 8: every base program again with Options.IncludeGoStackTrace; work inside the handler of a call-stack overflow (12 activities incl. nested protected calls that fail x depth of the calls that follow x stack kind x thread).",
  "C07": "Round 8: limits kind closures-with-upvalues (function expressions with 0/1/2 captured variables in turn, counts around 256/512/1024).",
  "C09": "Round 8: a fresh traversal (emptiness idiom, whole nested loop) started while another one stands on a key it cleared, on tables that were once larger (4 more bulk scenarios).",
  "C11": "Round 8: the context replaced (unrelated, derived, twice) or first attached by a host function during the run, the new context cancelled at every instruction behind the call.",
- "C12": "Round 8: error-then-deeper product (error raised and caught at one fill level, then recursion / unpack / coroutine at another) under every relation of RegistryMaxSize to RegistrySize (0, below, equal, just above, far above), differential against the fixed registry; work inside the overflow handler.",
+ "C12": "Round 8: error-then-deeper product (error raised and caught at one fill level, then recursion / unpack / coroutine at another) under every relation of RegistryMaxSize to RegistrySize (0, below, equal, just above, far above), differential against the fixed registry; work inside the overflow handler; many-results product (29 producers x 16 sizes x 5 configurations).",
  "C13": "Round 8: explicit-state search over sequential channel histories (13 operations incl. five select forms x two states sharing two buffered channels, depth 4/5, only non-blocking operations enabled) judged at the level of what the Lua operation returns.",
  "C16": "Round 8: signed hexadecimal strings (26 bodies up to 25 digits x sign x blanks x 5 readers): rejected, or the value the lexer gives the same text.",
  "C17": "Round 8: tail-position fault sites (return error(...), return <host function>(...)) and functions reached by one / two tail calls in F-faultline; goto-loop kinds in F-nestlocals; locals of levels lost to tail calls.",
